@@ -14,29 +14,29 @@ Local Open Scope N_scope.
     deployment of those sources, identically (stored checksums, timestamps and
     what it was built from), and succeeds iff the clean one does *)
 Theorem C12_deploy_reaches_clean :
-  forall crc cyid list_of info_of dinfo_of, crc_inj crc -> cyid_inj cyid ->
-  forall Hist, coherent Hist -> nonzero Hist ->
+  forall crc cyid list_of info_of dinfo_of deps_fn, crc_inj crc -> cyid_inj cyid ->
+  forall Hist, coherent Hist -> nonzero Hist -> deps_closed deps_fn Hist ->
   forall hs a s,
-  (forall s', In s' hs -> In s' Hist /\ wf_srcs list_of info_of s') ->
-  In s Hist -> wf_srcs list_of info_of s -> Inv crc cyid Hist a ->
-  sub (fst (fst (deploy crc cyid list_of info_of dinfo_of s [])))
-      (fst (fst (deploy crc cyid list_of info_of dinfo_of s (run_hist crc cyid list_of info_of dinfo_of hs a)))) /\
-  snd (deploy crc cyid list_of info_of dinfo_of s (run_hist crc cyid list_of info_of dinfo_of hs a))
-  = snd (deploy crc cyid list_of info_of dinfo_of s []).
+  (forall s', In s' hs -> In s' Hist /\ wf_srcs list_of info_of deps_fn s') ->
+  In s Hist -> wf_srcs list_of info_of deps_fn s -> Inv crc cyid deps_fn Hist a ->
+  sub (fst (fst (deploy crc cyid list_of info_of dinfo_of deps_fn s [])))
+      (fst (fst (deploy crc cyid list_of info_of dinfo_of deps_fn s (run_hist crc cyid list_of info_of dinfo_of deps_fn hs a)))) /\
+  snd (deploy crc cyid list_of info_of dinfo_of deps_fn s (run_hist crc cyid list_of info_of dinfo_of deps_fn hs a))
+  = snd (deploy crc cyid list_of info_of dinfo_of deps_fn s []).
 Proof. exact deploy_reaches_clean. Qed.
 Print Assumptions C12_deploy_reaches_clean.
 
 (** the invariant behind it is preserved by every deployment and holds of the
     empty build directory *)
 Theorem C12_invariant_preserved :
-  forall crc cyid list_of info_of dinfo_of, crc_inj crc -> cyid_inj cyid ->
-  forall Hist, coherent Hist -> nonzero Hist ->
-  forall s a, In s Hist -> wf_srcs list_of info_of s -> Inv crc cyid Hist a ->
-  Inv crc cyid Hist (fst (fst (deploy crc cyid list_of info_of dinfo_of s a))).
+  forall crc cyid list_of info_of dinfo_of deps_fn, crc_inj crc -> cyid_inj cyid ->
+  forall Hist, coherent Hist -> nonzero Hist -> deps_closed deps_fn Hist ->
+  forall s a, In s Hist -> wf_srcs list_of info_of deps_fn s -> Inv crc cyid deps_fn Hist a ->
+  Inv crc cyid deps_fn Hist (fst (fst (deploy crc cyid list_of info_of dinfo_of deps_fn s a))).
 Proof. exact deploy_inv. Qed.
 Print Assumptions C12_invariant_preserved.
 
-Theorem C12_invariant_initial : forall crc cyid Hist, Inv crc cyid Hist [].
+Theorem C12_invariant_initial : forall crc cyid deps_fn Hist, Inv crc cyid deps_fn Hist [].
 Proof. exact Inv_nil. Qed.
 Print Assumptions C12_invariant_initial.
 
@@ -44,18 +44,18 @@ Print Assumptions C12_invariant_initial.
     that schema: right after the schema's update its compiled config, table,
     reverse db and prism are built from the current sources *)
 Theorem C12_edited_schema_never_stale :
-  forall crc cyid info_of dinfo_of, crc_inj crc -> cyid_inj cyid ->
-  forall Hist, coherent Hist -> nonzero Hist ->
+  forall crc cyid info_of dinfo_of deps_fn, crc_inj crc -> cyid_inj cyid ->
+  forall Hist, coherent Hist -> nonzero Hist -> deps_closed deps_fn Hist ->
   forall s x dep a v d vd fl,
-  In s Hist -> Inv crc cyid Hist a -> lookup s (FRes (RSchema x)) = Some v ->
-  let cy := build_config s (Some x) in
+  In s Hist -> Inv crc cyid deps_fn Hist a -> lookup s (FRes (RSchema x)) = Some v ->
+  let cy := build_config deps_fn s (Some x) in
   let info := info_of (cy_from cy) in
   si_dict info = Some d -> lookup s (FDict d) = Some vd ->
   cids_of s (tables_of d (dinfo_of (fv_cid vd))) = Some fl ->
   let files := fl ++ vocab_cids s (dinfo_of (fv_cid vd)) in
   let nt := {| t_ck := crc_files crc 0 files; t_files := files |} in
   let p := match si_prism info with Some p => p | None => d end in
-  let a' := fst (fst (schema_update crc cyid info_of dinfo_of s x dep a)) in
+  let a' := fst (fst (schema_update crc cyid info_of dinfo_of deps_fn s x dep a)) in
   get_cy a' (KCy (Some x)) = Some cy /\
   get_tab a' (KRev d) = Some nt /\
   get_prism a' (KPrism p) = Some {| p_dck := crc_files crc 0 files; p_sck := cyid cy; p_tab := nt; p_cy := cy |} /\
@@ -68,11 +68,11 @@ Print Assumptions C12_edited_schema_never_stale.
     [noop_deploy_rewrites_nothing_full] additionally needs distinct prism names
     for schemas with different compiled configs, see C12_noop_shared_prism_witness) *)
 Theorem C12_noop_deploy_rewrites_nothing_partial :
-  forall crc cyid Hist s t d p cy files X,
+  forall crc cyid deps_fn Hist s t d p cy files X,
   In s Hist -> files <> [] ->
   let dck := crc_files crc 0 files in
   let nt := {| t_ck := dck; t_files := files |} in
-  needs_update s (Some (build_config s t)) = false /\
+  needs_update s (Some (build_config deps_fn s t)) = false /\
   (get_tab X (KTab d) = Some nt -> get_tab X (KRev d) = Some nt ->
    get_prism X (KPrism p) = Some {| p_dck := dck; p_sck := cyid cy; p_tab := nt; p_cy := cy |} ->
    rb_t_of crc d files X = false /\ rb_p_of crc cyid p cy files X = false /\ core_nf crc cyid d p cy files X = X) /\
@@ -84,7 +84,7 @@ Print Assumptions C12_noop_deploy_rewrites_nothing_partial.
 (** non-vacuity and the two observations the model yields (both judged
     hypotheses, not findings; replayed on the real code by the check) *)
 Theorem C12_nonvacuous :
-  wf_srcs demo_list_of demo_info_of demo_srcs /\ snd (demo_deploy demo_srcs []) = true.
+  wf_srcs demo_list_of demo_info_of demo_deps demo_srcs /\ snd (demo_deploy demo_srcs []) = true.
 Proof. exact (conj wf_demo (proj1 deploy_demo_runs)). Qed.
 Print Assumptions C12_nonvacuous.
 
